@@ -402,6 +402,15 @@ fn run(line: &str) -> String {
             let ext: u8 = t.n();
             res(TimeZone::from_tz_data(&minimal_tzif(&s, if ext != 0 { b'3' } else { b'2' })), |z| format!("{:?}", z.as_ref().extra_rule()).replace(' ', ""))
         }
+        "tzif_footer" => {
+            // tzif_footer <hex of the RAW footer bytes> <ext 0|1>: minimal v2/v3 file followed by exactly these bytes
+            let raw = unhex(t.s());
+            let ext: u8 = t.n();
+            let mut f = minimal_tzif(b"", if ext != 0 { b'3' } else { b'2' });
+            f.truncate(f.len() - 2);
+            f.extend_from_slice(&raw);
+            res(TimeZone::from_tz_data(&f), |z| format!("{:?}", z.as_ref().extra_rule()).replace(' ', ""))
+        }
         "posix_settings" => {
             let s = unhex(t.s());
             let st = TimeZoneSettings::new(&[], |_| Err("no file".into()));
